@@ -56,7 +56,7 @@ func optsUnmodified(c *Ctx, lr *limitRoles, rule string) {
 		if v := p.virtualOptions(lr.d.Named); !found && v != nil {
 			// no options field: the struct caches the single options it needs (see derived.go); what
 			// each cache holds is what the other rules see in place of the field
-			c.R.Check(v.Op == "param", rule, p.FnKey(ctor)+"#opts", p.Pos(ctor.Pos()), "the needed options are cached as given", "the constructor caches options read from modified options ("+v.String()+"): the discipline then runs at a different rate than the one configured")
+			c.R.Check(v.Op == "param" || spilledParamOf(v) != nil, rule, p.FnKey(ctor)+"#opts", p.Pos(ctor.Pos()), "the needed options are cached as given", "the constructor caches options read from modified options ("+v.String()+"): the discipline then runs at a different rate than the one configured")
 			foundAny = true
 			continue
 		}
